@@ -121,73 +121,97 @@ def run(tier='quick'):
     # ---- R4 ----------------------------------------------------------------------------
     reps = representative_versions(prog, order, v1lo, v1hi, v2lo, v2hi)
     nfields = 0
-    for gen, vi in reps:
-        M = fm.FieldModel(prog, cg, eff, assume_schema=vi, enum_order=order)
-        nfields = len(M.fields)
-        ver = order[vi]
-        rs, asnap = M.r_snap(gen)
-        wu, aupd, _ = M.w_of(gen, 'update')
-        wc, acre, _ = M.w_of(gen, 'create')
-        for a in (asnap, aupd, acre):
-            chk.analysed(a.func)
-            if a.unknown:
-                chk.unknown(R4, a.func.qualname, 'constructs outside the modelled subset: %s' % a.unknown[:3])
-        where_s = locstr(asnap.func.node)
-        where_u = locstr(aupd.func.node)
-        S = lambda s: sorted(fm.show_loc(k) for k in s)
-        for x in M.fields:
-            R = _drop_whole(rs[x])
-            W = wu[x]
-            Wc = wc[x]
-            inst = '%s (%s..) %s' % (gen, ver, x)
-            # (a)/(b)
-            if not W and R:
-                chk.violation(R4, '%s|%s|read-not-written' % (gen, x), where_s,
-                              '%s: snapshot() reads %s from %s but update() writes nothing from it: the field '
-                              'cannot read back as given' % (inst, x, S(R)))
-            elif W and not R:
-                chk.violation(R4, '%s|%s|written-never-read' % (gen, x), where_s,
-                              '%s: update() stores %s in %s but snapshot() never reads it back: the field is '
-                              'silently dropped by the round trip' % (inst, x, S(W)))
-            else:
-                chk.ok(R4, inst + ' representable: %s' % ('yes' if W else 'no (neither written nor read)'),
-                       where_s)
-            # (c)
-            if R and W:
-                missing = {k for k in R if not _covered(k, W)}
-                if missing:
-                    chk.violation(R4, '%s|%s|reads %s' % (gen, x, ','.join(S(missing))), where_s,
-                                  '%s: snapshot() computes %s from %s, which update() does not write from %s '
-                                  '(it writes %s): the value read back can differ from the value given' % (
-                                      inst, x, S(missing), x, S(W)))
-                else:
-                    chk.ok(R4, inst + ' read locations are written locations', where_s,
-                           detail={'read': S(R), 'written': S(W)})
-            # (d)
-            if fm.coarse(W) != fm.coarse(Wc):
-                chk.violation(R4, '%s|%s|create/update differ' % (gen, x), where_u,
-                              '%s: create_track writes %s to %s but update() writes it to %s' % (
-                                  inst, x, S(Wc), S(W)))
-            else:
-                chk.ok(R4, inst + ' create == update', where_u)
-            # (e) no other field reads what X alone writes
-            for y in M.fields:
-                if y == x:
-                    continue
-                clash = {k for k in W if any(_same_or_inside(k, r) for r in _drop_whole(rs[y]))
-                         and not any(_same_or_inside(k, w2) or _same_or_inside(w2, k) for w2 in wu[y])}
-                if clash:
-                    chk.violation(R4, '%s|%s|value also read as %s' % (gen, x, y), where_u,
-                                  '%s: update() writes %s from %s, and snapshot() reads that location for %s, '
-                                  'which does not write it: %s written through a snapshot changes what is read '
-                                  'back for %s' % (inst, S(clash), x, y, x, y))
-        if gen == 'v2':
-            _role_pairing(prog, chk, R4, M, asnap, aupd, ver)
+    global _CTX
+    _CTX = (prog, cg, eff, order)
+    import multiprocessing
+    import os as _os
+    nfields = 0
+    with multiprocessing.get_context("fork").Pool(min(len(reps), _os.cpu_count() or 4)) as pool:
+        results = pool.map(_range_worker, reps)
+    for calls, nf in results:
+        nfields = nf
+        for c in calls:
+            getattr(chk, c[0])(*c[1], **c[2])
     chk.extra['representative_versions'] = ['%s %s' % (g, order[v]) for g, v in reps]
     return chk.finish('statement-level analysis of the 1.x storage layer and the 2.x track table; value-flow '
                       'interpretation (sa/valueflow.py) of snapshot(), update() and create_track() of both '
                       'generations with every repository callee inlined down to the SQL statements, once per '
                       'schema range (%d representative versions); %d snapshot fields' % (len(reps), nfields))
+
+
+def _range_worker(args):
+    """Evaluate one schema range in a forked worker; returns the recorded rule outcomes."""
+    gen, vi = args
+    prog, cg, eff, order = _CTX
+    from .c06 import _Recorder
+    chk = _Recorder()
+    R4 = "R4"
+    nfields = 0
+    M = fm.FieldModel(prog, cg, eff, assume_schema=vi, enum_order=order)
+    nfields = len(M.fields)
+    ver = order[vi]
+    rs, asnap = M.r_snap(gen)
+    wu, aupd, _ = M.w_of(gen, 'update')
+    wc, acre, _ = M.w_of(gen, 'create')
+    for a in (asnap, aupd, acre):
+        chk.analysed(a.func)
+        if a.unknown:
+            chk.unknown(R4, a.func.qualname, 'constructs outside the modelled subset: %s' % a.unknown[:3])
+    where_s = locstr(asnap.func.node)
+    where_u = locstr(aupd.func.node)
+    S = lambda s: sorted(fm.show_loc(k) for k in s)
+    for x in M.fields:
+        R = _drop_whole(rs[x])
+        W = wu[x]
+        Wc = wc[x]
+        inst = '%s (%s..) %s' % (gen, ver, x)
+        # (a)/(b)
+        if not W and R:
+            chk.violation(R4, '%s|%s|read-not-written' % (gen, x), where_s,
+                          '%s: snapshot() reads %s from %s but update() writes nothing from it: the field '
+                          'cannot read back as given' % (inst, x, S(R)))
+        elif W and not R:
+            chk.violation(R4, '%s|%s|written-never-read' % (gen, x), where_s,
+                          '%s: update() stores %s in %s but snapshot() never reads it back: the field is '
+                          'silently dropped by the round trip' % (inst, x, S(W)))
+        else:
+            chk.ok(R4, inst + ' representable: %s' % ('yes' if W else 'no (neither written nor read)'),
+                   where_s)
+        # (c)
+        if R and W:
+            missing = {k for k in R if not _covered(k, W)}
+            if missing:
+                chk.violation(R4, '%s|%s|reads %s' % (gen, x, ','.join(S(missing))), where_s,
+                              '%s: snapshot() computes %s from %s, which update() does not write from %s '
+                              '(it writes %s): the value read back can differ from the value given' % (
+                                  inst, x, S(missing), x, S(W)))
+            else:
+                chk.ok(R4, inst + ' read locations are written locations', where_s,
+                       detail={'read': S(R), 'written': S(W)})
+        # (d)
+        if fm.coarse(W) != fm.coarse(Wc):
+            chk.violation(R4, '%s|%s|create/update differ' % (gen, x), where_u,
+                          '%s: create_track writes %s to %s but update() writes it to %s' % (
+                              inst, x, S(Wc), S(W)))
+        else:
+            chk.ok(R4, inst + ' create == update', where_u)
+        # (e) no other field reads what X alone writes
+        for y in M.fields:
+            if y == x:
+                continue
+            clash = {k for k in W if any(_same_or_inside(k, r) for r in _drop_whole(rs[y]))
+                     and not any(_same_or_inside(k, w2) or _same_or_inside(w2, k) for w2 in wu[y])}
+            if clash:
+                chk.violation(R4, '%s|%s|value also read as %s' % (gen, x, y), where_u,
+                              '%s: update() writes %s from %s, and snapshot() reads that location for %s, '
+                              'which does not write it: %s written through a snapshot changes what is read '
+                              'back for %s' % (inst, S(clash), x, y, x, y))
+    if gen == 'v2':
+        _role_pairing(prog, chk, R4, M, asnap, aupd, ver)
+    return chk.calls, nfields
+
+
+_CTX = None
 
 
 def _drop_whole(locs):
